@@ -8,22 +8,51 @@ import warnings
 import numpy as np
 import thermosteam as tmo
 from thermosteam import separations as sep
-from vt.core import case_hash
+from vt.core import case_hash, exc_key
 from vt.common import stream_invariant
 
 PID = 'C03'
 RULE = ('random compositions over subsets (1-6) of 11 volatile chemicals + gas-locked N2/CO2 + solid/liquid-locked glucose/glycerol, flows 10^U(-3,3), every initial distribution over l/g, specs: '
         'TP, TV, PV, PH, PS, TH, TS, Tx, Ty, Px, Py with T 250-500 K, P 1e4-5e6 Pa, V in {0,1,U(0,1)}, H/S between the V=0.02 and V=0.98 values +-30%; LLE on 2-5 chemicals with a partially miscible pair '
-        '(all three methods), SLE with glucose/tetradecanol, vlle; repeated calls on the same stream. only normal returns are judged; documented refusals are counted. '
+        '(all three methods), SLE with glucose/tetradecanol, vlle; repeated calls on the same stream. only normal returns are judged; a raise is counted as a refusal only when it is a documented refusal '
+        'of that operation on that input class (NoEquilibrium with nothing volatile, AssertionError on x / y with a locked chemical flowing, UndefinedPhase on vlle with solid material, no solute on sle, '
+        'InfeasibleRegion on x / y, cannot-solve-for-pressure on T-H / T-S) or a numerical failure inside a solver; any other raise is reported; refusal rates per operation have ceilings and reach counters floors (per shard). '
         'second family: initial distributions over 2-4 rows (g, l, L, s) followed by 1-3 calls of different kinds (vle / lle / vlle / sle) on the one stream, single-phase Stream receivers (g / l / s), '
         'separations.lle (efficiency 1, (0,1), 0; multi_stream) and separations.vle(Q=, multi_stream=), placement of locked chemicals after mix_from(vle=True) / receive_vent (energy balance and ideal on / off; corners where a locked '
         'chemical\'s vapour pressure crosses P), x / y on packages with zero-flow and locked members incl. x = z, VLE method shgo, LLE call forms (P, single_loop, use_cache, update=False), three-phase vlle at 1e-3..1e3, '
         'second call after the feed changed (rows scaled, a chemical removed / added). '
         'non-trivial = two non-empty phases after the call, or a locked chemical present; distinct = hash of the case')
 MIN_NONTRIVIAL = {'quick': 300, 'thorough': 8000}
-ASSUMPTIONS = ['only calls that return normally are judged (the quantifier of C03)', 'on streams with more rows than the call distributes (material in L / s during vle) the placement of locked chemicals is judged within the rows the call pools (g + l); balance and sign over all rows', 'column sums are compared with relative 1e-12 of the column and absolute 1e-12 of the total flow']
+ASSUMPTIONS = ['only calls that return normally are judged (the quantifier of C03); raises of types or on input classes not listed in classify() are reported as exceptions, although C03 itself says nothing about them',
+               'which chemicals are gas- / liquid- / solid-only is the harness\'s own table (LOCK: the phase= argument it passes to Chemical), not Chemical.locked_state',
+               'flows after a normal return must be finite; the balance is stated NaN-safe (not within the bound = violated)',
+               'refusal ceilings (2x the recorded rate per operation, 2 sigma + 1 allowance) and reach floors (a quarter / a third of the recorded per-shard mean) are evaluated per shard; a breach makes the run inconclusive',
+               'on streams with more rows than the call distributes (material in L / s during vle) the placement of locked chemicals is judged within the rows the call pools (g + l); balance and sign over all rows', 'column sums are compared with relative 1e-12 of the column and absolute 1e-12 of the total flow']
 VOL = ('Water', 'Ethanol', 'Methanol', 'Propanol', 'Butanol', 'Hexane', 'Heptane', 'Octane', 'Benzene', 'Toluene', 'Acetone')
 REFUSALS = ('InfeasibleRegion', 'NoEquilibrium', 'DomainError', 'UndefinedPhase', 'NotImplementedError')
+
+# harness-side declaration of the phase-locked chemicals (what chem() asks the library for): the placement clauses are judged against this table, not against the
+# library's own Chemical.locked_state (the attribute Chemicals.compile itself uses to lock them)
+LOCK = {'N2': 'g', 'CO2': 'g', 'Glucose': 's', 'Glycerol': 'l'}
+# raises that are numerical failures inside a solver (the call did not return normally: outside the quantifier); recognised by type and, for RuntimeError, by the solver's message
+SOLVER_MESSAGES = ('root could not be solved', 'Failed to extrapolate')     # flexsolve's root finders; the property models' extrapolation
+# innermost library functions where a FloatingPointError (0/0, log 0 in the activity models / the K-value iteration) was seen on the unchanged library; a FloatingPointError from
+# any other site is still counted (not judged) but under 'unlisted' with its own small ceiling
+NUMERIC_SITES = {'FloatingPointError@group_activity_coefficients', 'FloatingPointError@loggammacs_UNIFAC', 'FloatingPointError@loggammacs_modified_UNIFAC', 'FloatingPointError@gamma_UNIFAC',
+                 'FloatingPointError@gamma_modified_UNIFAC', 'FloatingPointError@psi_UNIFAC', 'FloatingPointError@psi_modified_UNIFAC', 'FloatingPointError@xy', 'FloatingPointError@SLE._x_iter',
+                 'FloatingPointError@BubblePoint.solve_Ty'}
+# ceilings on refusals / (refusals + normal returns) per operation: 2x the rate pooled over the quick seeds 0-3 and a 5600-case sample (at most half way to 1, at least 0.02);
+# evaluated per shard with a 2-sigma + 1 allowance for the small counts (check_rates)
+CEIL = {'vle:Tx': 0.82, 'vle:Ty': 0.82, 'vle:Px': 0.82, 'vle:Py': 0.82, 'vle:TH': 0.70, 'vle:TS': 0.70, 'vle:PS': 0.035, 'vle:PV': 0.02, 'vle:PH': 0.02, 'vle:TP': 0.02, 'vle:TV': 0.02,
+        'sle': 0.32, 'vlle': 0.30, 'receive_vent': 0.06, 'lle': 0.02, 'separations.lle': 0.02, 'mix_from': 0.02, 'probe': 0.02}
+# mean number of hits per quick shard (260 + 300 cases) on the unchanged library, seeds 0-3: a shard that stays below a quarter (quick, counters with a mean of 16 or more) or
+# a third (thorough, 15x the cases) of it makes the run inconclusive - 'reached at least once' is not enough to say a clause was judged
+SHARD_MEAN = {'judged:finite': 594, 'judged:invariant': 687, 'judged:lle': 90, 'judged:mix_from': 17.6, 'judged:probe': 112, 'judged:receive_vent': 27.6, 'judged:separations.lle': 22.2, 'judged:sle': 37,
+              'judged:vle:PH': 49.9, 'judged:vle:PS': 25, 'judged:vle:PV': 40.9, 'judged:vle:Px': 9.7, 'judged:vle:Py': 11.4, 'judged:vle:TH': 23.2, 'judged:vle:TP': 97.4, 'judged:vle:TS': 16.6,
+              'judged:vle:TV': 30.7, 'judged:vle:Tx': 10.1, 'judged:vle:Ty': 11.6, 'judged:vlle': 56.8, 'locked:gas': 116.8, 'locked:l': 48.4, 'locked:s': 55.9, 'locked:misplaced': 27.6, 'locked-only': 10.9,
+              'single-component': 16.3, 'repeated-call': 46.9, 'repeated-call:changed-feed': 29.7, 'repeated-call:chemical-set-changed': 21.8, 'dist:material-in-L-or-s': 41.4, 'seq:cross-kind': 25.1,
+              'seq:vle-on-3+phases': 31.0, 'via-locked:placement-judged': 31.8, 'via-locked:receive_vent': 21.6, 'via-locked:mix_from': 10.2, 'vlle:three-phase': 4.9, 'xy:with-locked-flow': 1.3,
+              'xy:at-feed-composition': 6.9, 'xy:extra-package-members': 9.8, 'via:separations.vle(Q)': 20.6, 'via:separations.lle': 22.2, 'vle:method=shgo': 11.6, 'lle:call-forms': 27.8, 'stream:vle': 21.3}
 
 _locked = {}
 _thermo = {}
@@ -35,7 +64,12 @@ def required(tier):
             # second family (coverage audit)
             'dist:material-in-L-or-s', 'seq:cross-kind', 'seq:vle-on-3+phases', 'seq:vlle-with-L', 'stream:vle', 'stream:vlle', 'stream:lle', 'stream:sle', 'via:separations.lle', 'separations.lle:efficiency<1',
             'separations.lle:efficiency=0', 'separations.lle:multi_stream', 'via:separations.vle(Q)', 'separations.vle:multi_stream', 'via-locked:mix_from', 'via-locked:receive_vent', 'xy:extra-package-members',
-            'xy:at-feed-composition', 'vle:method=shgo', 'lle:single_loop', 'lle:update=False', 'lle:P', 'lle:use_cache=False', 'vlle:three-phase', 'repeated-call:changed-feed', 'repeated-call:chemical-set-changed']
+            'xy:at-feed-composition', 'vle:method=shgo', 'lle:single_loop', 'lle:update=False', 'lle:P', 'lle:use_cache=False', 'vlle:three-phase', 'repeated-call:changed-feed', 'repeated-call:chemical-set-changed',
+            # oracle audit: one counter per kind of locked chemical (harness table), the NaN-safe ledger and the sparse invariant on every written stream, placement on the
+            # via-locked paths actually judged (not skipped for relabelled outlets), the per-shard refusal ceilings / reach floors evaluated
+            'locked:l', 'locked:s', 'judged:finite', 'judged:invariant', 'via-locked:placement-judged', 'rates:checked'] + ['judged:' + op for op in CEIL] + [
+            # run-level floors (about half the smallest quick-tier count over seeds 0-3)
+            'vlle:three-phase>=10', 'judged:vle:Tx>=20', 'judged:vle:Ty>=20', 'judged:vle:Px>=20', 'judged:vle:Py>=20', 'judged:vle:TH>=45', 'judged:vle:TS>=33', 'judged:vle:PS>=50']
 
 
 def chem(i):
@@ -116,37 +150,67 @@ def array_of(s):
     return np.array([r.to_array() for r in s.imol.data.rows]), tuple(s.phases)
 
 
-def judge(rec, clause, tag, before, after, s, case, locked_check=True):
-    b, bph = before; a, aph = after
-    tot_b = b.sum(0); tot_a = a.sum(0)
+def ledger(rec, clause, tag, tot_b, after, ids, rows_text=''):
+    """the balance / sign oracles shared by every path. NaN-safe: a comparison with NaN is False, so the balance is stated as 'not within the bound' and the flows after a
+    normal return must be finite numbers (0/0 in a normalisation of an emptied phase would otherwise pass both '>' tests silently)."""
+    a, aph = after
+    tot_a = a.sum(0)
     F = tot_b.sum()
-    bad = np.abs(tot_a - tot_b) > 1e-12 * np.maximum(np.abs(tot_a), np.abs(tot_b)) + 1e-12 * F
-    worst = float((np.abs(tot_a - tot_b) / max(F, 1e-300)).max())
-    ids = s.chemicals.IDs
-    rec.check(not bad.any(), clause, f'balance/{tag}', f'{tag}: per-chemical totals changed: ' + ', '.join(f'{ids[i]}: {tot_b[i]!r} -> {tot_a[i]!r}' for i in np.where(bad)[0][:4]), residual=worst)
+    finite = bool(np.isfinite(a).all())
+    rec.hit('judged:finite')
+    rec.check(finite, clause, f'non-finite/{tag}', f'{tag}: non-finite phase flows after a normal return: ' + str([(aph[r], ids[j], repr(float(a[r, j]))) for r, j in zip(*np.where(~np.isfinite(a)))][:4]))
+    with np.errstate(all='ignore'):
+        d = np.abs(tot_a - tot_b)
+        bad = ~(d <= 1e-12 * np.maximum(np.abs(tot_a), np.abs(tot_b)) + 1e-12 * F)
+        worst = float((d / max(F, 1e-300)).max()) if finite else float('nan')
+    rec.check(not bad.any(), clause, f'balance/{tag}', f'{tag}: per-chemical totals changed: ' + ', '.join(f'{ids[i]}: {tot_b[i]!r} -> {tot_a[i]!r}' for i in np.where(bad)[0][:4]) + rows_text, residual=worst)
     neg = [(aph[r], ids[j], float(a[r, j])) for r, j in zip(*np.where(a < 0))]
     rec.check(not neg, clause, f'negative/{tag}', f'{tag}: negative phase flows after a normal return: {neg[:4]}')
-    if locked_check:
-        gi = aph.index('g') if 'g' in aph else None
-        for j, c in enumerate(s.chemicals):
-            ls = c.locked_state
-            if ls == 'g' and tot_a[j] > 0:
-                rec.hit('locked:gas')
-                rec.check(gi is not None and a[gi, j] == tot_a[j], clause, f'gas-locked/{tag}', f'{tag}: gas-only chemical {c.ID} not entirely in the gas phase: ' + str({p: float(a[r, j]) for r, p in enumerate(aph)}))
-            elif ls in ('l', 's') and tot_a[j] > 0:
-                rec.hit('locked:heavy')
-                rec.check(gi is None or a[gi, j] == 0, clause, f'heavy-locked/{tag}', f'{tag}: {ls}-only chemical {c.ID} appears in the gas phase: {float(a[gi, j]) if gi is not None else 0}')
-    e = stream_invariant(s)
-    rec.check(e is None, 'invariant', tag, f'sparse invariant after {tag}: {e}')
+    return tot_a
+
+
+def placement(rec, clause, tag, after, ids, pool=None):
+    """gas-only chemicals entirely in the gas row and liquid- / solid-only chemicals absent from it, within the rows named by pool (None: all rows). Which chemical is locked to
+    which phase is the harness's own declaration (LOCK), with one reach counter per kind."""
+    a, aph = after
+    gi = aph.index('g') if 'g' in aph else None
+    rows_ = [r for r, p in enumerate(aph) if pool is None or p in pool]
+    for j, i in enumerate(ids):
+        ls = LOCK.get(i)
+        if ls is None: continue
+        pooled = float(sum(a[r, j] for r in rows_))
+        if not pooled > 0: continue
+        if ls == 'g':
+            rec.hit('locked:gas')
+            rec.check(gi is not None and a[gi, j] == pooled, clause, f'gas-locked/{tag}', f'{tag}: gas-only chemical {i} not entirely in the gas phase: ' + str({p: float(a[r, j]) for r, p in enumerate(aph)}))
+        else:
+            rec.hit('locked:heavy'); rec.hit('locked:' + ls)
+            rec.check(gi is None or a[gi, j] == 0, clause, f'heavy-locked/{tag}', f'{tag}: {ls}-only chemical {i} appears in the gas phase: {float(a[gi, j]) if gi is not None else 0}')
+
+
+def invariant(rec, tag, *streams):
+    for st in streams:
+        if st is None: continue
+        e = stream_invariant(st)
+        rec.hit('judged:invariant')
+        rec.check(e is None, 'invariant', tag, f'sparse invariant after {tag}: {e}')
+
+
+def judge(rec, clause, tag, before, after, s, case, locked_check=True):
+    b, bph = before; a, aph = after
+    ids = s.chemicals.IDs
+    tot_a = ledger(rec, clause, tag, b.sum(0), after, ids)
+    if locked_check: placement(rec, clause, tag, after, ids)
+    invariant(rec, tag, s)
     nonempty = sum(1 for r in a if r.sum() > 0)
-    if nonempty >= 2 or any(c.locked_state for j, c in enumerate(s.chemicals) if tot_a[j] > 0): rec.mark_nontrivial(case_hash(case))
+    if nonempty >= 2 or (locked_check and any(LOCK.get(i) for j, i in enumerate(ids) if tot_a[j] > 0)): rec.mark_nontrivial(case_hash(case))
 
 
 def make_stream(case, th):
     s = tmo.MultiStream(None, phases=('g', 'l'), T=case.get('T', 300.), P=case.get('P', 101325.), thermo=th)
     for i, v, d in zip(case['ids'], case['flows'], case['dist']):
         if not v: continue
-        ls = chem(i).locked_state
+        ls = LOCK.get(i)
         if ls and case.get('misplaced'):
             if d > 0: s.imol['g', i] = v * d
             if d < 1: s.imol['l', i] = v * (1 - d)
@@ -158,10 +222,76 @@ def make_stream(case, th):
     return s
 
 
-def refused(e):
-    # C03 quantifies over calls that return normally: any raise (documented refusal or numerical failure inside a solver) is counted, not judged.
-    # Programming errors in the call path (TypeError, AttributeError, KeyError, IndexError, NameError) are still reported.
-    return not isinstance(e, (TypeError, AttributeError, KeyError, IndexError, NameError, UnboundLocalError))
+def inputs_of(s, **extra):
+    """what the harness itself can see of a stream before a call: the facts that warrant a documented refusal"""
+    a, ph = arr2(s)
+    ids = s.chemicals.IDs
+    multi = isinstance(s, tmo.MultiStream)
+
+    def pooled(labels):      # a single-phase Stream is relabelled by the call (vle: s -> l; sle: g -> l): its one row is what the call works on
+        rows = [a[r] for r, p in enumerate(ph) if (p in labels or not multi)]
+        return np.sum(rows, axis=0) if rows else np.zeros(len(ids))
+    vol = np.array([LOCK.get(i) is None for i in ids], bool)
+    d = {'ids': ids, 'novol': not (pooled('gl')[vol] > 0).any(),      # nothing that can be in vapour-liquid equilibrium in the rows a vle call pools
+         'solid': any(p == 's' and a[r].any() for r, p in enumerate(ph)),   # material in a solid row (vlle offers L / g / l only)
+         'ls': pooled('ls'), 'locked_flow': bool(any((a[:, j] > 0).any() for j, i in enumerate(ids) if LOCK.get(i)))}
+    d.update(extra)
+    return d
+
+
+def classify(e, op, inp):
+    """C03 quantifies over calls that return normally. A raise is counted (not judged) only when it is
+      (a) a documented refusal of this operation whose condition the harness can see in the inputs (NoEquilibrium: nothing volatile to equilibrate; AssertionError on x / y: a
+          locked chemical with flow makes the number of species != 2; UndefinedPhase on vlle: material in a solid row; 'no solute available' / 0/0 on sle: solute absent),
+      (b) a documented refusal of the specification family that depends on the equilibrium itself (InfeasibleRegion of the lever rule on x / y; 'cannot solve for pressure yet'
+          on T-H / T-S), or
+      (c) a numerical failure inside a solver (FloatingPointError; RuntimeError with the root finders' / property extrapolation's message).
+    returns the reason, or None: then the raise is reported (any other type - ValueError, LinAlgError, RecursionError, KeyError ... - or a documented type on an input class
+    it is not documented for). The rates of (b) and (c) are bounded per operation by check_rates()."""
+    name = type(e).__name__; msg = str(e)
+    kind, _, pair = op.partition(':')
+    xy = kind == 'vle' and pair[1:] in ('x', 'y')
+    if name == 'NoEquilibrium':
+        return 'NoEquilibrium (no volatile material in g + l)' if kind in ('vle', 'receive_vent', 'mix_from') and inp.get('novol') else None
+    if name == 'InfeasibleRegion':
+        return 'InfeasibleRegion' + (' (at the feed composition)' if inp.get('at') == 'z' else '') if xy else None
+    if name == 'NotImplementedError':
+        if kind == 'vle' and pair in ('TH', 'TS') and 'cannot solve for pressure' in msg:
+            f = inp.get('f')
+            return 'NotImplementedError' + ('' if f is None else (' (target inside the V=0.02..0.98 values)' if 0 <= f <= 1 else ' (target outside the V=0.02..0.98 values)'))
+        return None
+    if name == 'AssertionError':
+        return 'AssertionError (a locked chemical with flow: number of species != 2)' if xy and inp.get('locked_flow') and 'number of species in equilibrium' in msg else None
+    if name == 'UndefinedPhase':
+        return 'UndefinedPhase (material in a solid row)' if kind == 'vlle' and inp.get('solid') else None
+    if name == 'DomainError': return 'DomainError'
+    if name in ('RuntimeError', 'ZeroDivisionError') and kind == 'sle' and ('no solute available' in msg or name == 'ZeroDivisionError'):
+        return f'{name} (no solute in l + s)' if inp.get('solute_absent') else None
+    if name == 'FloatingPointError' or (name == 'RuntimeError' and any(m in msg for m in SOLVER_MESSAGES)):
+        ek = exc_key(e)
+        return f'numerical failure {ek}' if (name == 'RuntimeError' or ek in NUMERIC_SITES) else f'unlisted numerical failure {ek}'
+    return None
+
+
+def on_raise(rec, e, op, clause, label, inp, what):
+    """a call did not return normally: counted as a refusal when classify() grants it, reported otherwise"""
+    reason = classify(e, op, inp)
+    if reason is None:
+        rec.hit('raise:reported')
+        rec.exception(clause, e, what=what + ' (not a documented refusal for this operation and input class)')
+        return
+    rec.refuse(f'{label}: {reason}')
+    rec.hit('refused:' + op)
+    if reason.startswith('unlisted'): rec.hit('refused:unlisted-numerical')
+
+
+def judged(rec, op):
+    rec.hit('judged:' + op)
+
+
+def solute_absent(s, solute):
+    inp = inputs_of(s)
+    return not inp['ls'][inp['ids'].index(solute)] > 0
 
 
 def vle_spec(case, s):
@@ -199,14 +329,17 @@ def run_case(case, rec):
         tmo.settings.set_thermo(th)
         if t in ('vle', 'via'):
             s = make_stream(case, th)
-            nvol = sum(1 for i, v in zip(case['ids'], case['flows']) if v and not chem(i).locked_state)
+            nvol = sum(1 for i, v in zip(case['ids'], case['flows']) if v and not LOCK.get(i))
+            inp = inputs_of(s, f=case['f'])
             try:
                 spec = vle_spec(case, s)
             except Exception as e:
-                if refused(e): rec.refuse(f'spec probe refused: {type(e).__name__}'); return
-                rec.exception('vle:' + case['pair'], e, what=f'probing the H/S range for {case["pair"]} raised {type(e).__name__}: {str(e)[:120]}'); return
+                on_raise(rec, e, 'probe', 'vle:' + case['pair'], 'spec probe refused', inp, f'probing the H/S range for {case["pair"]} raised {type(e).__name__}: {str(e)[:120]}'); return
+            if case['pair'][1] in 'HS': judged(rec, 'probe')
             before = array_of(s)
             tag = 'vle:' + case['pair']
+            op = tag if t == 'vle' or case['how'] == 'separations.vle' else case['how']
+            outs = (s,)
             try:
                 if t == 'vle':
                     s.vle(**spec)
@@ -224,6 +357,7 @@ def run_case(case, rec):
                         recv = tmo.MultiStream(None, phases=('g', 'l'), thermo=th)
                         recv.mix_from([a_, b_], energy_balance=True, vle=True)
                         tgt = recv; after = array_of(recv) if isinstance(recv, tmo.MultiStream) else (np.array([recv.imol.data.to_array()]), (recv.phase,))
+                        outs = (recv,)
                         before = (np.array([arr.sum(0)]), ('mix',))
                         rec.hit('via:mix_from')
                     elif how == 'separations.vle':
@@ -232,7 +366,7 @@ def run_case(case, rec):
                         if len(kw) != 2: rec.refuse('spec pair not offered by separations.vle'); return
                         sep.vle(feed, vap, liq, **kw)
                         after = (np.array([vap.imol.data.to_array(), liq.imol.data.to_array()]), ('g', 'l'))
-                        tgt = None
+                        tgt = None; outs = (vap, liq, feed)
                         rec.check(np.array_equal(array_of(feed)[0], before[0]), tag, 'feed-changed', 'separations.vle changed the feed')
                         rec.hit('via:separations.vle')
                     else:
@@ -244,49 +378,43 @@ def run_case(case, rec):
                             if arr[0, j]: vent.imol[i] = arr[0, j]
                         if liq.isempty() or vent.isempty(): rec.refuse('one side empty'); return
                         vent.receive_vent(liq, energy_balance=False)
-                        after = (np.array([vent.imol.data.to_array(), liq.imol.data.to_array()]), ('g', 'l'))
+                        after = (np.array([vent.imol.data.to_array(), liq.imol.data.to_array()]), (vent.phase, liq.phase))
                         before = (np.array([arr[0], arr[1]]), ('g', 'l'))
-                        tgt = None
+                        tgt = None; outs = (vent, liq)
                         rec.hit('via:receive_vent')
             except Exception as e:
-                if refused(e): rec.refuse(f'{tag}: {type(e).__name__}'); return
-                if isinstance(e, AssertionError): rec.refuse('assertion on the number of specs'); return
-                rec.exception(tag.split('/')[0] if t == 'vle' else 'via', e, what=f'{tag} on {case["ids"]} raised {type(e).__name__}: {str(e)[:140]}'); return
+                on_raise(rec, e, op, tag.split('/')[0] if t == 'vle' else 'via', tag, inp, f'{tag} on {case["ids"]} raised {type(e).__name__}: {str(e)[:140]}'); return
+            judged(rec, op)
             if t == 'vle':
                 rec.hit(tag)
                 if nvol == 0: rec.hit('locked-only')
-                if case.get('misplaced') and any(chem(i).locked_state for i in case['ids']): rec.hit('locked:misplaced')
+                if case.get('misplaced') and any(LOCK.get(i) for i in case['ids']): rec.hit('locked:misplaced')
                 if nvol == 1: rec.hit('single-component')
                 judge(rec, tag, tag, before, after, s, case)
                 if case.get('repeat'):
                     # solver objects are cached per stream: a second call with another spec on the same stream
-                    b2 = array_of(s)
+                    b2 = array_of(s); inp2 = inputs_of(s)
                     try:
                         s.vle(T=case['T'] + 7.5, P=case['P'])
+                    except Exception as e:
+                        on_raise(rec, e, 'vle:TP', 'repeated-call', 'repeat refused', inp2, f'second vle call raised {type(e).__name__}: {str(e)[:120]}')
+                    else:
+                        judged(rec, 'vle:TP')
                         judge(rec, 'repeated-call', 'repeated-call', b2, array_of(s), s, case)
                         rec.hit('repeated-call')
-                    except Exception as e:
-                        if refused(e): rec.refuse('repeat refused')
-                        else: rec.exception('repeated-call', e, what=f'second vle call raised {type(e).__name__}: {str(e)[:120]}')
             else:
-                class S_: pass
-                # judge against a pseudo stream description
-                dummy = tgt if tgt is not None else s
-                b = before; a = after
-                tot_b = b[0].sum(0); tot_a = a[0].sum(0); F = tot_b.sum()
-                bad = np.abs(tot_a - tot_b) > 1e-12 * np.maximum(np.abs(tot_a), np.abs(tot_b)) + 1e-12 * F
-                ids = th.chemicals.IDs
-                rec.check(not bad.any(), 'via', f'balance/{case["how"]}', f'{tag}: per-chemical totals changed: ' + ', '.join(f'{ids[i]}: {tot_b[i]!r} -> {tot_a[i]!r}' for i in np.where(bad)[0][:4]))
-                rec.check(not (a[0] < 0).any(), 'via', f'negative/{case["how"]}', f'{tag}: negative flows after a normal return')
-                if (a[0].sum(1) > 0).sum() >= 2: rec.mark_nontrivial(case_hash(case))
+                # the outlets of the 'via' paths: the same ledger oracles (balance, sign, finite) and the sparse invariant of every stream the call wrote
+                ledger(rec, 'via', case['how'], before[0].sum(0), after, th.chemicals.IDs)
+                invariant(rec, case['how'], *outs)
+                if (after[0].sum(1) > 0).sum() >= 2: rec.mark_nontrivial(case_hash(case))
         elif t == 'vlle':
             s = make_stream(case, th)
-            before_tot = array_of(s)[0].sum(0)
+            before_tot = array_of(s)[0].sum(0); inp = inputs_of(s)
             try:
                 s.vlle(case['T'], case['P'])
             except Exception as e:
-                if refused(e): rec.refuse(f'vlle: {type(e).__name__}'); return
-                rec.exception('vlle', e, what=f'vlle on {case["ids"]} raised {type(e).__name__}: {str(e)[:140]}'); return
+                on_raise(rec, e, 'vlle', 'vlle', 'vlle', inp, f'vlle on {case["ids"]} raised {type(e).__name__}: {str(e)[:140]}'); return
+            judged(rec, 'vlle')
             a, aph = array_of(s) if isinstance(s, tmo.MultiStream) else (np.array([s.imol.data.to_array()]), (s.phase,))
             rec.hit('vlle')
             judge(rec, 'vlle', 'vlle', (np.array([before_tot]), ('all',)), (a, aph), s, case)
@@ -294,24 +422,25 @@ def run_case(case, rec):
             s = tmo.MultiStream(None, phases=('L', 'l'), T=case['T'], thermo=th)
             for i, v, d in zip(case['ids'], case['flows'], case['distL']):
                 s.imol['L', i] = v * d; s.imol['l', i] = v * (1 - d)
-            before = array_of(s)
+            before = array_of(s); inp = inputs_of(s)
             try:
                 lle = s.lle
                 lle.method = case['method']
                 lle(case['T'], top_chemical=case['top'])
             except Exception as e:
-                if refused(e): rec.refuse(f'lle: {type(e).__name__}'); return
-                rec.exception('lle', e, what=f'lle({case["method"]}) on {case["ids"]} raised {type(e).__name__}: {str(e)[:140]}'); return
+                on_raise(rec, e, 'lle', 'lle', 'lle', inp, f'lle({case["method"]}) on {case["ids"]} raised {type(e).__name__}: {str(e)[:140]}'); return
+            judged(rec, 'lle')
             rec.hit('lle')
             judge(rec, 'lle', f'lle/{case["method"]}', before, array_of(s), s, case, locked_check=False)
             if case['repeat']:
                 b2 = array_of(s)
                 try:
                     s.lle(case['T'] + 11.0)
-                    judge(rec, 'repeated-call', 'lle-repeated', b2, array_of(s), s, case, locked_check=False); rec.hit('repeated-call')
                 except Exception as e:
-                    if refused(e): rec.refuse('repeat refused')
-                    else: rec.exception('repeated-call', e, what=f'second lle call raised {type(e).__name__}: {str(e)[:120]}')
+                    on_raise(rec, e, 'lle', 'repeated-call', 'repeat refused', inp, f'second lle call raised {type(e).__name__}: {str(e)[:120]}')
+                else:
+                    judged(rec, 'lle')
+                    judge(rec, 'repeated-call', 'lle-repeated', b2, array_of(s), s, case, locked_check=False); rec.hit('repeated-call')
         elif t == 'sle':
             th = thermo_unlocked(case['ids']); tmo.settings.set_thermo(th)
             s = tmo.MultiStream(None, phases=('s', 'l'), T=case['T'], thermo=th)
@@ -319,14 +448,14 @@ def run_case(case, rec):
                 if k == 0:
                     s.imol['s', i] = v * case['dist']; s.imol['l', i] = v * (1 - case['dist'])
                 else: s.imol['l', i] = v
-            before = array_of(s)
+            before = array_of(s); inp = inputs_of(s, solute_absent=solute_absent(s, case['solute']))
             try:
                 kw = {'solubility': case['solubility']} if case['solubility'] is not None else {}
                 if case['byH']: s.sle(case['solute'], H=s.H, **kw)
                 else: s.sle(case['solute'], T=case['T'], **kw)
             except Exception as e:
-                if refused(e): rec.refuse(f'sle: {type(e).__name__}'); return
-                rec.exception('sle', e, what=f'sle on {case["ids"]} raised {type(e).__name__}: {str(e)[:140]}'); return
+                on_raise(rec, e, 'sle', 'sle', 'sle', inp, f'sle on {case["ids"]} raised {type(e).__name__}: {str(e)[:140]}'); return
+            judged(rec, 'sle')
             rec.hit('sle')
             judge(rec, 'sle', 'sle', before, array_of(s), s, case, locked_check=False)
 
@@ -460,30 +589,16 @@ def arr2(s):
     return np.array([s.imol.data.to_array()]), (s.phase,)
 
 
-def judge2(rec, clause, tag, before, after, chemicals, case, pool=None, feed_total=None):
-    """balance over all rows, signs, and (pool = names of the rows the call distributes) the placement of phase-locked chemicals within that pool"""
+def judge2(rec, clause, tag, before, after, chemicals, case, pool=None, feed_total=None, streams=()):
+    """balance over all rows, signs, finite values, (pool = names of the rows the call distributes) the placement of phase-locked chemicals within that pool, and the sparse
+    invariant (no stored NaN / zero) of every stream the call wrote (streams)"""
     b, bph = before; a, aph = after
-    tot_b = b.sum(0) if feed_total is None else feed_total; tot_a = a.sum(0)
-    F = tot_b.sum()
-    bad = np.abs(tot_a - tot_b) > 1e-12 * np.maximum(np.abs(tot_a), np.abs(tot_b)) + 1e-12 * F
-    worst = float((np.abs(tot_a - tot_b) / max(F, 1e-300)).max())
+    tot_b = b.sum(0) if feed_total is None else feed_total
     ids = [c.ID for c in chemicals]
-    rec.check(not bad.any(), clause, f'balance/{tag}', f'{tag}: per-chemical totals changed: ' + ', '.join(f'{ids[i]}: {tot_b[i]!r} -> {tot_a[i]!r}' for i in np.where(bad)[0][:4]) + f' (rows {bph} -> {aph})', residual=worst)
-    neg = [(aph[r], ids[j], float(a[r, j])) for r, j in zip(*np.where(a < 0))]
-    rec.check(not neg, clause, f'negative/{tag}', f'{tag}: negative phase flows after a normal return: {neg[:4]}')
-    if pool:
-        gi = aph.index('g') if 'g' in aph else None
-        rows_ = [r for r, p in enumerate(aph) if p in pool]
-        for j, c in enumerate(chemicals):
-            ls = c.locked_state
-            pooled = float(sum(a[r, j] for r in rows_))
-            if ls == 'g' and pooled > 0:
-                rec.hit('locked:gas')
-                rec.check(gi is not None and a[gi, j] == pooled, clause, f'gas-locked/{tag}', f'{tag}: gas-only chemical {c.ID} not entirely in the gas phase: ' + str({p: float(a[r, j]) for r, p in enumerate(aph)}))
-            elif ls in ('l', 's') and pooled > 0:
-                rec.hit('locked:heavy')
-                rec.check(gi is None or a[gi, j] == 0, clause, f'heavy-locked/{tag}', f'{tag}: {ls}-only chemical {c.ID} appears in the gas phase: {float(a[gi, j]) if gi is not None else 0}')
-    if sum(1 for r in a if r.sum() > 0) >= 2 or (pool and any(c.locked_state for j, c in enumerate(chemicals) if tot_a[j] > 0)): rec.mark_nontrivial(case_hash(case))
+    tot_a = ledger(rec, clause, tag, tot_b, after, ids, rows_text=f' (rows {bph} -> {aph})')
+    if pool: placement(rec, clause, tag, after, ids, pool=pool)
+    invariant(rec, tag, *streams)
+    if sum(1 for r in a if r.sum() > 0) >= 2 or (pool and any(LOCK.get(i) for j, i in enumerate(ids) if tot_a[j] > 0)): rec.mark_nontrivial(case_hash(case))
 
 
 def build_rows(case, th, ph):
@@ -513,9 +628,18 @@ def do_step(rec, st, s, chemicals, case, where):
     """one equilibrium call on s (Stream or MultiStream); returns False when the call did not return normally"""
     op = st['op']
     tag = f'{where}/{op}' + (':' + st['pair'] if op == 'vle' else '')
+    cls = 'vle:' + st['pair'] if op == 'vle' else op
+    inp = inputs_of(s, f=st.get('f'))
+    if op == 'sle': inp['solute_absent'] = solute_absent(s, st['solute'])
+    if op == 'vle' and st['pair'] not in ('TP', 'TV', 'PV'):
+        try:
+            kw = vle_kwargs(st, s)
+        except Exception as e:
+            on_raise(rec, e, 'probe', where, f'{tag}: spec probe refused', inp, f'{tag}: probing the H/S range on {case["ids"]} raised {type(e).__name__}: {str(e)[:140]}'); return False
+        judged(rec, 'probe')
     try:
         if op == 'vle':
-            kw = vle_kwargs(st, s)
+            if st['pair'] in ('TP', 'TV', 'PV'): kw = vle_kwargs(st, s)
             before = arr2(s); s.vle(**kw); pool = 'gl'
         elif op == 'lle':
             before = arr2(s); s.lle(st['T'], top_chemical=st['top']); pool = None
@@ -525,12 +649,10 @@ def do_step(rec, st, s, chemicals, case, where):
             before = arr2(s)
             s.sle(st['solute'], T=st['T'], **({'solubility': st['sol']} if st['sol'] is not None else {})); pool = None
     except Exception as e:
-        if refused(e) or isinstance(e, AssertionError): rec.refuse(f'{tag}: {type(e).__name__}'); return False
-        rec.exception(where, e, what=f'{tag} on {case["ids"]} raised {type(e).__name__}: {str(e)[:140]}'); return False
+        on_raise(rec, e, cls, where, tag, inp, f'{tag} on {case["ids"]} raised {type(e).__name__}: {str(e)[:140]}'); return False
+    judged(rec, cls)
     rec.hit(f'{where}:{op}')
-    judge2(rec, where, tag, before, arr2(s), chemicals, case, pool=pool)
-    e = stream_invariant(s)
-    rec.check(e is None, 'invariant', tag, f'sparse invariant after {tag}: {e}')
+    judge2(rec, where, tag, before, arr2(s), chemicals, case, pool=pool, streams=(s,))
     return True
 
 
@@ -568,46 +690,51 @@ def run_case2(case, rec):
                 if v: feed.imol[i] = v
             top = tmo.Stream(None, thermo=th); bottom = tmo.Stream(None, thermo=th)
             ms = tmo.MultiStream(None, phases=('L', 'l'), thermo=th) if case['ms'] else None
-            before = arr2(feed)
+            before = arr2(feed); inp = inputs_of(feed)
             eff = case['eff']; etag = 'efficiency=1' if eff == 1 else ('efficiency=0' if eff == 0 else 'efficiency<1')
             try:
                 sep.lle(feed, top, bottom, top_chemical=case['top'], efficiency=eff, multi_stream=ms)
             except Exception as e:
-                if refused(e): rec.refuse(f'separations.lle: {type(e).__name__}'); return
-                rec.exception('via', e, what=f'separations.lle on {case["ids"]} raised {type(e).__name__}: {str(e)[:140]}'); return
+                on_raise(rec, e, 'separations.lle', 'via', 'separations.lle', inp, f'separations.lle on {case["ids"]} raised {type(e).__name__}: {str(e)[:140]}'); return
+            judged(rec, 'separations.lle')
             rec.hit('via:separations.lle'); rec.hit('separations.lle:' + etag)
             rec.check(np.array_equal(arr2(feed)[0], before[0]), 'via', 'separations.lle/feed-changed', 'separations.lle changed the feed')
             after = (np.array([top.imol.data.to_array(), bottom.imol.data.to_array()]), ('top', 'bottom'))
-            judge2(rec, 'via', f'separations.lle/{etag}', before, after, chemicals, case)
+            judge2(rec, 'via', f'separations.lle/{etag}', before, after, chemicals, case, streams=(top, bottom, feed))
             if ms is not None:
                 rec.hit('separations.lle:multi_stream')
-                judge2(rec, 'via', 'separations.lle/multi_stream', before, arr2(ms), chemicals, case)
+                judge2(rec, 'via', 'separations.lle/multi_stream', before, arr2(ms), chemicals, case, streams=(ms,))
         elif t == 'sepvle':
             feed = make_stream(case, th)
             vap = tmo.Stream(None, thermo=th); liq = tmo.Stream(None, thermo=th)
             ms = tmo.MultiStream(None, phases=('g', 'l'), thermo=th) if case['ms'] else None
             fixed = {'P': case['P']} if case['fix'] == 'P' else {'T': case['T']}
+            inp = inputs_of(feed, f=case['f']); cls = f'vle:{case["fix"]}H'
             try:
                 probe = feed.copy()
                 probe.vle(V=0.02, **fixed); lo = probe.H
                 probe.vle(V=0.98, **fixed); hi = probe.H
                 Q = lo + case['f'] * (hi - lo) - feed.H
+            except Exception as e:
+                on_raise(rec, e, 'probe', 'via', 'separations.vle(Q): spec probe refused', inp, f'probing the H range for separations.vle({fixed}, Q=...) on {case["ids"]} raised {type(e).__name__}: {str(e)[:140]}'); return
+            judged(rec, 'probe')
+            try:
                 before = arr2(feed)
                 sep.vle(feed, vap, liq, Q=Q, multi_stream=ms, **fixed)
             except Exception as e:
-                if refused(e) or isinstance(e, AssertionError): rec.refuse(f'separations.vle(Q): {type(e).__name__}'); return
-                rec.exception('via', e, what=f'separations.vle({fixed}, Q=...) on {case["ids"]} raised {type(e).__name__}: {str(e)[:140]}'); return
+                on_raise(rec, e, cls, 'via', 'separations.vle(Q)', inp, f'separations.vle({fixed}, Q=...) on {case["ids"]} raised {type(e).__name__}: {str(e)[:140]}'); return
+            judged(rec, cls)
             rec.hit('via:separations.vle(Q)')
             rec.check(np.array_equal(arr2(feed)[0], before[0]), 'via', 'separations.vle(Q)/feed-changed', 'separations.vle changed the feed')
             after = (np.array([vap.imol.data.to_array(), liq.imol.data.to_array()]), ('g', 'l'))
             tag = f'separations.vle/{case["fix"]}Q'
-            judge2(rec, 'via', tag, before, after, chemicals, case, pool='gl')
+            judge2(rec, 'via', tag, before, after, chemicals, case, pool='gl', streams=(vap, liq, feed))
             if ms is not None:
                 rec.hit('separations.vle:multi_stream')
-                judge2(rec, 'via', tag + '/multi_stream', before, arr2(ms), chemicals, case, pool='gl')
+                judge2(rec, 'via', tag + '/multi_stream', before, arr2(ms), chemicals, case, pool='gl', streams=(ms,))
         elif t == 'vialocked':
             s = make_stream(case, th); arr = array_of(s)[0]          # rows g, l
-            how = case['how']
+            how = case['how']; inp = inputs_of(s); relabelled = False
             try:
                 if how == 'mix_from':
                     a_ = tmo.Stream(None, thermo=th, T=case['T'], P=case['P'], phase='l'); b_ = tmo.Stream(None, thermo=th, T=min(case['T'] + 40, 500), P=case['P'], phase='g')
@@ -617,7 +744,7 @@ def run_case2(case, rec):
                     if a_.isempty() or b_.isempty(): rec.refuse('one inlet empty'); return
                     recv = tmo.MultiStream(None, phases=('g', 'l'), thermo=th)
                     recv.mix_from([a_, b_], energy_balance=case['eb'], vle=True)
-                    after = arr2(recv); tag = 'mix_from(vle=True)'; rec.hit('mix_from(vle=True):energy_balance=' + str(case['eb']))
+                    after = arr2(recv); tag = 'mix_from(vle=True)'; rec.hit('mix_from(vle=True):energy_balance=' + str(case['eb'])); outs = (recv,)
                 else:
                     liq = tmo.Stream(None, thermo=th, T=case['T'], P=case['P'], phase='l'); vent = tmo.Stream(None, thermo=th, T=case['T'], P=case['P'], phase='g')
                     for j, i in enumerate(th.chemicals.IDs):
@@ -625,15 +752,21 @@ def run_case2(case, rec):
                         if arr[0, j]: vent.imol[i] = arr[0, j]
                     if liq.isempty() or vent.isempty(): rec.refuse('one side empty'); return
                     vent.receive_vent(liq, energy_balance=case['eb'], ideal=case['ideal'])
-                    if vent.phase != 'g' or liq.phase != 'l': rec.refuse('receive_vent: outlet phases relabelled'); return
-                    after = (np.array([vent.imol.data.to_array(), liq.imol.data.to_array()]), ('g', 'l'))
-                    tag = 'receive_vent'; rec.hit(f'receive_vent:energy_balance={case["eb"]}/ideal={case["ideal"]}')
+                    # balance, sign and finiteness do not depend on the labels: always judged; only the placement of locked chemicals needs the rows to be the gas and the liquid
+                    relabelled = vent.phase != 'g' or liq.phase != 'l'
+                    after = (np.array([vent.imol.data.to_array(), liq.imol.data.to_array()]), (vent.phase, liq.phase))
+                    tag = 'receive_vent'; rec.hit(f'receive_vent:energy_balance={case["eb"]}/ideal={case["ideal"]}'); outs = (vent, liq)
             except Exception as e:
-                if refused(e) or isinstance(e, AssertionError): rec.refuse(f'{how}: {type(e).__name__}'); return
-                rec.exception('via', e, what=f'{how} on {case["ids"]} raised {type(e).__name__}: {str(e)[:140]}'); return
+                on_raise(rec, e, how, 'via', how, inp, f'{how} on {case["ids"]} raised {type(e).__name__}: {str(e)[:140]}'); return
+            judged(rec, how)
             rec.hit('via-locked:' + how)
             if case.get('corner'): rec.hit('via-locked:' + case['corner'])
-            judge2(rec, 'via-locked', tag, (arr, ('g', 'l')), after, chemicals, case, pool='gl')
+            if relabelled:
+                rec.refuse('receive_vent: outlet phases relabelled (placement of locked chemicals not judged; balance and sign are)'); rec.hit('receive_vent:relabelled')
+                judge2(rec, 'via-locked', tag + '/relabelled', (arr, ('g', 'l')), after, chemicals, case, pool=None, streams=outs)
+            else:
+                rec.hit('via-locked:placement-judged')
+                judge2(rec, 'via-locked', tag, (arr, ('g', 'l')), after, chemicals, case, pool='gl', streams=outs)
         elif t == 'xyplus':
             s = make_stream(case, th)
             two = case['two']; fa, fb = (case['flows'][case['ids'].index(i)] for i in two)
@@ -646,48 +779,49 @@ def run_case2(case, rec):
             pair = case['pair']
             kw = {('T' if pair[0] == 'T' else 'P'): case[pair[0]], pair[1]: comp}
             before = arr2(s)
-            locked_flow = any(v_ and chem(i).locked_state for i, v_ in zip(case['ids'], case['flows']))
+            locked_flow = any(v_ and LOCK.get(i) for i, v_ in zip(case['ids'], case['flows']))
+            inp = inputs_of(s, at=case['at'], locked_flow=bool(locked_flow))
             try:
                 s.vle(**kw)
             except Exception as e:
-                if refused(e) or isinstance(e, AssertionError): rec.refuse(f'vle:{pair} (package with extra members): {type(e).__name__}'); return
-                rec.exception('vle:' + pair, e, what=f'vle({kw}) on {case["ids"]} raised {type(e).__name__}: {str(e)[:140]}'); return
+                on_raise(rec, e, 'vle:' + pair, 'vle:' + pair, f'vle:{pair} (package with extra members)', inp, f'vle({kw}) on {case["ids"]} raised {type(e).__name__}: {str(e)[:140]}'); return
+            judged(rec, 'vle:' + pair)
             rec.hit('xy:extra-package-members')
             if case['at'] == 'z': rec.hit('xy:at-feed-composition')
             if locked_flow: rec.hit('xy:with-locked-flow')
-            judge2(rec, 'vle:' + pair, f'vle:{pair}/extra-package-members', before, arr2(s), chemicals, case, pool='gl')
+            judge2(rec, 'vle:' + pair, f'vle:{pair}/extra-package-members', before, arr2(s), chemicals, case, pool='gl', streams=(s,))
         elif t == 'shgo':
             s = make_stream(case, th)
-            before = arr2(s)
+            before = arr2(s); inp = inputs_of(s, f=case['f'])
             try:
                 kw = vle_kwargs(case, s)
                 vle = s.vle; vle.method = 'shgo'
                 vle(**kw)
             except Exception as e:
-                if refused(e) or isinstance(e, AssertionError): rec.refuse(f'vle(shgo):{case["pair"]}: {type(e).__name__}'); return
-                rec.exception('vle-shgo', e, what=f'vle(method=shgo, {case["pair"]}) on {case["ids"]} raised {type(e).__name__}: {str(e)[:140]}'); return
+                on_raise(rec, e, 'vle:' + case['pair'], 'vle-shgo', f'vle(shgo):{case["pair"]}', inp, f'vle(method=shgo, {case["pair"]}) on {case["ids"]} raised {type(e).__name__}: {str(e)[:140]}'); return
+            judged(rec, 'vle:' + case['pair'])
             rec.hit('vle:method=shgo')
-            judge2(rec, 'vle-shgo', f'vle:{case["pair"]}/method=shgo', before, arr2(s), chemicals, case, pool='gl')
+            judge2(rec, 'vle-shgo', f'vle:{case["pair"]}/method=shgo', before, arr2(s), chemicals, case, pool='gl', streams=(s,))
         elif t == 'llekw':
             s = build_rows(case, th, case['phases'])
             kw = dict(case['kw'])
             tag = 'lle/' + case['method'] + ''.join(f'/{k}' for k in ('single_loop',) if kw[k]) + ('/P' if kw['P'] else '') + ('' if kw['use_cache'] else '/no-cache') + ('' if kw['update'] else '/update=False')
-            before = arr2(s)
+            before = arr2(s); inp = inputs_of(s)
             try:
                 lle = s.lle; lle.method = case['method']
                 if case['again']: lle(case['T'] + 9.0, top_chemical=case['top'])       # a remembered solution for the call forms to start from
                 b2 = arr2(s)
                 ret = lle(case['T'], top_chemical=case['top'], **kw)
             except Exception as e:
-                if refused(e): rec.refuse(f'lle call form: {type(e).__name__}'); return
-                rec.exception('lle', e, what=f'{tag} on {case["ids"]} raised {type(e).__name__}: {str(e)[:140]}'); return
+                on_raise(rec, e, 'lle', 'lle', 'lle call form', inp, f'{tag} on {case["ids"]} raised {type(e).__name__}: {str(e)[:140]}'); return
+            judged(rec, 'lle')
             rec.hit('lle:call-forms')
             for k in ('single_loop', 'P'):
                 if kw[k]: rec.hit('lle:' + k)
             if not kw['update']: rec.hit('lle:update=False')
             if not kw['use_cache']: rec.hit('lle:use_cache=False')
             if any(v == 0 for v in case['flows']): rec.hit('lle:zero-flow-member')
-            judge2(rec, 'lle', tag, b2, arr2(s), chemicals, case)
+            judge2(rec, 'lle', tag, b2, arr2(s), chemicals, case, streams=(s,))
             judge2(rec, 'lle', tag + '/from-start', before, arr2(s), chemicals, case)
         elif t == 'vlle3':
             if case['phases'] == 'S':
@@ -699,26 +833,26 @@ def run_case2(case, rec):
             before = arr2(s)
             n = 2 if case['again'] else 1
             for k in range(n):
-                b = arr2(s)
+                b = arr2(s); inp = inputs_of(s)
                 try:
                     s.vlle(case['T'] + 1.5 * k, case['P'])
                 except Exception as e:
-                    if refused(e): rec.refuse(f'vlle: {type(e).__name__}'); return
-                    rec.exception('vlle', e, what=f'vlle on {case["ids"]} raised {type(e).__name__}: {str(e)[:140]}'); return
+                    on_raise(rec, e, 'vlle', 'vlle', 'vlle', inp, f'vlle on {case["ids"]} raised {type(e).__name__}: {str(e)[:140]}'); return
+                judged(rec, 'vlle')
                 a = arr2(s)
                 nz = sum(1 for r in a[0] if r.sum() > 0)
                 rec.hit('vlle')
                 if nz == 3: rec.hit('vlle:three-phase')
                 if k: rec.hit('vlle:repeated')
-                judge2(rec, 'vlle', 'vlle/' + ('three-phase' if nz == 3 else 'fewer-phases') + ('/repeated' if k else ''), b, a, chemicals, case, pool='Lgl')
+                judge2(rec, 'vlle', 'vlle/' + ('three-phase' if nz == 3 else 'fewer-phases') + ('/repeated' if k else ''), b, a, chemicals, case, pool='Lgl', streams=(s,))
         elif t == 'repeat2':
-            s = make_stream(case, th)
+            s = make_stream(case, th); inp = inputs_of(s, f=case['first']['f'])
             try:
                 kw = vle_kwargs(case['first'], s)
                 s.vle(**kw)
             except Exception as e:
-                if refused(e) or isinstance(e, AssertionError): rec.refuse(f'first call: {type(e).__name__}'); return
-                rec.exception('repeated-call', e, what=f'first vle call raised {type(e).__name__}: {str(e)[:120]}'); return
+                on_raise(rec, e, 'vle:' + case['first']['pair'], 'repeated-call', 'first call', inp, f'first vle call raised {type(e).__name__}: {str(e)[:120]}'); return
+            judged(rec, 'vle:' + case['first']['pair'])
             # the feed changes between the calls on the same stream (and therefore the same remembered solver)
             a0 = array_of(s)[0]
             ids = th.chemicals.IDs
@@ -730,17 +864,42 @@ def run_case2(case, rec):
                     s.imol[p, i] = v
             if not array_of(s)[0].any(): rec.refuse('nothing left after the change'); return
             present0 = a0.sum(0) > 0; present1 = array_of(s)[0].sum(0) > 0
+            inp = inputs_of(s, f=case['second']['f'])
             try:
                 kw = vle_kwargs(case['second'], s)
                 before = arr2(s)
                 s.vle(**kw)
             except Exception as e:
-                if refused(e) or isinstance(e, AssertionError): rec.refuse(f'second call: {type(e).__name__}'); return
-                rec.exception('repeated-call', e, what=f'second vle call raised {type(e).__name__}: {str(e)[:120]}'); return
+                on_raise(rec, e, 'vle:' + case['second']['pair'], 'repeated-call', 'second call', inp, f'second vle call raised {type(e).__name__}: {str(e)[:120]}'); return
+            judged(rec, 'vle:' + case['second']['pair'])
             rec.hit('repeated-call:changed-feed')
             if (present0 != present1).any(): rec.hit('repeated-call:chemical-set-changed')
             else: rec.hit('repeated-call:same-chemical-set')
-            judge2(rec, 'repeated-call', f'changed-feed/vle:{case["second"]["pair"]}', before, arr2(s), chemicals, case, pool='gl')
+            judge2(rec, 'repeated-call', f'changed-feed/vle:{case["second"]["pair"]}', before, arr2(s), chemicals, case, pool='gl', streams=(s,))
+
+
+def check_rates(rec, tier):
+    """per shard: refusal ceilings per operation, the ceiling on numerical failures from unlisted sites, and floors on the reach counters. A breach decides nothing about the
+    property but says that clauses went unjudged far more often than on the recorded baseline: reported as an error of the harness run (-> inconclusive)."""
+    import math
+    breaches = []
+    for op, c in CEIL.items():
+        r = rec.reach.get('refused:' + op, 0); n = r + rec.reach.get('judged:' + op, 0)
+        allowed = n * c + 2 * math.sqrt(n * c * (1 - c)) + 1
+        if r > allowed: breaches.append(f'{op}: {r} of {n} calls did not return normally (ceiling {c}, allowed {allowed:.1f})')
+    for k in rec.reach:
+        if k.startswith('refused:') and k[8:] not in CEIL and k != 'refused:unlisted-numerical': breaches.append(f'refusals of an operation without a ceiling: {k}')
+    u = rec.reach.get('refused:unlisted-numerical', 0)
+    if u > max(2, 1.5e-3 * rec.cases): breaches.append(f'{u} numerical failures from sites not seen on the unchanged library in {rec.cases} cases')
+    for k, m in SHARD_MEAN.items():
+        floor = int(m / 4) if tier == 'quick' else int(5 * m)
+        if tier == 'quick' and m < 16: continue
+        if rec.reach.get(k, 0) < floor: breaches.append(f'reach counter {k}: {rec.reach.get(k, 0)} hits in this shard (floor {floor}, baseline mean {m if tier == "quick" else 15 * m})')
+    rec.hit('rates:checked')
+    for b in breaches:
+        try: raise RuntimeError('refusal ceiling / reach floor: ' + b)
+        except RuntimeError as e: rec.exception('rates', e, case={'shard': rec.shard, 'breach': b})
+
 
 def replay(case, rec):
     run_case(case, rec)
@@ -764,3 +923,4 @@ def run(rec, rng, tier, shard, nshards):
         except Exception as e:
             rec.exception('harness', e, what=f'harness error: {type(e).__name__}: {e}')
         if i % 67 == 0: rec.sample(case)
+    check_rates(rec, tier)
